@@ -27,7 +27,19 @@ func libEffects(f *types.Func) ([]string, bool) {
 			return []string{"bytes"}, true
 		}
 		return nil, true
-	case strings.HasSuffix(full, ").ReadAt"), full == "io.ReadFull":
+	case full == "io.ReadFull", full == "(*bytes.Reader).Read", full == "(*bufio.Reader).Read", full == "(io.Reader).Read":
+		return []string{"bytes", "consumed"}, true
+	case full == "(*bufio.Reader).ReadByte", full == "(*bytes.Reader).ReadByte", full == "(io.ByteReader).ReadByte":
+		return []string{"consumed"}, true
+	case full == "(*bytes.Reader).Len", full == "(*bufio.Reader).Peek":
+		return nil, true
+	case full == "github.com/ipfs/go-cid.CidFromReader":
+		return []string{"consumed"}, true
+	case full == "io.CopyN":
+		return []string{"consumed", "written"}, true
+	case full == "encoding/binary.ReadUvarint":
+		return []string{"all"}, true
+	case strings.HasSuffix(full, ").ReadAt"):
 		return []string{"bytes"}, true
 	case strings.HasPrefix(full, "(*sync.RWMutex)."), strings.HasPrefix(full, "(*sync.Mutex)."):
 		return nil, true
@@ -217,16 +229,55 @@ func (u *Unit) libModel(st *State, e *ast.CallExpr, callee *types.Func, ca callA
 		u.heapWrite(st, h, fmt.Sprintf("(store %s %s %s)", cur, sRef(b.S), nb))
 		return Term{S: n, T: types.Typ[types.Int]}, true
 	case "encoding/binary.Uvarint":
+		// (v, n): n > 0: buf[0..n) decodes to v: bytes 0..n-2 have the continuation bit, byte n-1 does not, v is the sum of
+		// the 7-bit groups (non-canonical encodings such as 80 00 are accepted by the real function, so n >= uvlen(v) only);
+		// n == 0: buffer too small; n < 0: overflow
 		b := ca.args[0]
 		v := u.freshOf(st, types.Typ[types.Uint64], "uv")
 		n := u.freshOf(st, types.Typ[types.Int], "uvn")
 		blk := u.sliceBlock(st, b)
 		st.assume(and(c.idxLe(c.idxConst(-11), n.S), c.idxLe(n.S, c.idxConst(10)), c.idxLe(n.S, sLen(b.S))))
 		pos := c.idxLt(c.idxConst(0), n.S)
-		st.assume(implies(pos, and(eq(n.S, u.uvlen(v.S)), u.uvarintAtFacts(blk, sOff(b.S), v.S))))
+		var facts []string
+		var sum string
+		for k := 0; k < 10; k++ {
+			kk := c.idxConst(int64(k))
+			by := fmt.Sprintf("(select %s %s)", blk, c.idxAdd(sOff(b.S), kk))
+			in := c.idxLt(kk, n.S)
+			last := eq(c.idxAdd(kk, c.idxConst(1)), n.S)
+			var hi, grp string
+			if c.bv {
+				hi = fmt.Sprintf("(bvuge %s #x80)", by)
+				grp = fmt.Sprintf("(bvshl ((_ zero_extend 56) (bvand %s #x7f)) %s)", by, c.constInt(big.NewInt(int64(7*k)), 64, false))
+				grp = ite(in, grp, c.constInt(big.NewInt(0), 64, false))
+				if sum == "" {
+					sum = grp
+				} else {
+					sum = fmt.Sprintf("(bvadd %s %s)", sum, grp)
+				}
+			} else {
+				hi = fmt.Sprintf("(>= %s 128)", by)
+				facts = append(facts, implies(in, and("(<= 0 "+by+")", "(<= "+by+" 255)")))
+				grp = ite(in, fmt.Sprintf("(* (mod %s 128) %s)", by, pow2(7*k).String()), "0")
+				if sum == "" {
+					sum = grp
+				} else {
+					sum = fmt.Sprintf("(+ %s %s)", sum, grp)
+				}
+			}
+			facts = append(facts, implies(and(in, not(last)), hi), implies(and(in, last), not(hi)))
+			if k == 9 {
+				// the tenth byte carries one bit
+				if c.bv {
+					facts = append(facts, implies(in, fmt.Sprintf("(bvule %s #x01)", by)))
+				} else {
+					facts = append(facts, implies(in, "(<= "+by+" 1)"))
+				}
+			}
+		}
+		st.assume(implies(pos, and(append(facts, eq(v.S, sum), c.idxLe(u.uvlen(v.S), n.S))...)))
 		zero := c.constInt(big.NewInt(0), 64, false)
 		st.assume(implies(not(pos), eq(v.S, zero)))
-		// an empty buffer gives n == 0
 		st.assume(implies(eq(sLen(b.S), c.idxConst(0)), eq(n.S, c.idxConst(0))))
 		return Term{Tuple: []Term{v, n}}, true
 	case "encoding/binary.AppendUvarint":
@@ -314,14 +365,133 @@ func (u *Unit) libModel(st *State, e *ast.CallExpr, callee *types.Func, ca callA
 		st.assume(eq(r, and(eq(sLen(a.S), sLen(b.S)), same)))
 		return Term{S: r, T: boolT}, true
 	case "io.ReadFull":
-		buf := ca.args[1]
+		// n bytes are consumed from r (ghost position consumed(r)); err == nil <==> n == len(buf); the bytes are the
+		// reader's ghost content at the old position; the position never passes the ghost size
+		rd, buf := ca.args[0], ca.args[1]
 		n := u.freshOf(st, types.Typ[types.Int], "n")
 		err := Term{S: c.fresh("err", "Int"), T: sig.Results().At(1).Type()}
+		u.declareReaderGhost()
+		oldPos := u.ghostCount(st, "consumed", rd.S)
 		u.havocSliceElems(st, buf)
 		st.assume(and(c.idxLe(c.idxConst(0), n.S), c.idxLe(n.S, sLen(buf.S))))
 		st.assume(eq(eq(err.S, "0"), eq(n.S, sLen(buf.S))))
 		st.assume(u.externalErr(err.S))
+		u.bumpCount(st, "consumed", rd.S, n.S, "true")
+		u.readerFacts(st, rd.S, oldPos, buf, n.S)
 		return Term{Tuple: []Term{n, err}}, true
+	case "(*bytes.Reader).Read", "(*bufio.Reader).Read", "(io.Reader).Read":
+		buf := ca.args[0]
+		n := u.freshOf(st, types.Typ[types.Int], "n")
+		err := Term{S: c.fresh("err", "Int"), T: sig.Results().At(1).Type()}
+		u.declareReaderGhost()
+		u.checkNonNilTerm(st, *ca.recv, e, "receiver of "+u.exprTextShort(e.Fun))
+		oldPos := u.ghostCount(st, "consumed", ca.recv.S)
+		u.havocSliceElems(st, buf)
+		st.assume(and(c.idxLe(c.idxConst(0), n.S), c.idxLe(n.S, sLen(buf.S))))
+		st.assume(u.externalErr(err.S))
+		// a Reader may return fewer bytes than asked for without an error (only 0 bytes needs one, for non-empty buffers)
+		st.assume(implies(and(eq(n.S, c.idxConst(0)), c.idxLt(c.idxConst(0), sLen(buf.S))), not(eq(err.S, "0"))))
+		u.bumpCount(st, "consumed", ca.recv.S, n.S, "true")
+		u.readerFacts(st, ca.recv.S, oldPos, buf, n.S)
+		return Term{Tuple: []Term{n, err}}, true
+	case "(*bufio.Reader).ReadByte", "(*bytes.Reader).ReadByte", "(io.ByteReader).ReadByte":
+		bt := u.freshOf(st, types.Typ[types.Uint8], "b")
+		err := Term{S: c.fresh("err", "Int"), T: sig.Results().At(1).Type()}
+		u.declareReaderGhost()
+		u.checkNonNilTerm(st, *ca.recv, e, "receiver of "+u.exprTextShort(e.Fun))
+		oldPos := u.ghostCount(st, "consumed", ca.recv.S)
+		st.assume(u.externalErr(err.S))
+		u.bumpCount(st, "consumed", ca.recv.S, c.idxConst(1), eq(err.S, "0"))
+		posI := oldPos
+		if c.bv {
+			posI = "((_ int2bv 64) " + oldPos + ")"
+		}
+		st.assume(implies(eq(err.S, "0"), and(eq(bt.S, fmt.Sprintf("(select (rd.content %s) %s)", ca.recv.S, posI)), "(< "+oldPos+" "+u.sizeAsInt("(rd.size "+ca.recv.S+")")+")")))
+		return Term{Tuple: []Term{bt, err}}, true
+	case "(*bufio.Reader).Peek":
+		// (buf, err): no bytes consumed; err == nil ==> len(buf) == n and buf is the content at the current position
+		n := ca.args[0]
+		u.declareReaderGhost()
+		u.checkNonNilTerm(st, *ca.recv, e, "receiver of "+u.exprTextShort(e.Fun))
+		pos := u.ghostCount(st, "consumed", ca.recv.S)
+		buf := u.freshOf(st, sig.Results().At(0).Type(), "peek")
+		err := Term{S: c.fresh("err", "Int"), T: sig.Results().At(1).Type()}
+		st.assume(u.externalErr(err.S))
+		nI := u.toIdx(n)
+		st.assume(implies(eq(err.S, "0"), eq(sLen(buf.S), nI)))
+		st.assume(implies(not(eq(err.S, "0")), c.idxLt(sLen(buf.S), nI)))
+		if !c.bv {
+			st.assume(implies(and(eq(err.S, "0"), c.idxLe(c.idxConst(0), nI)), "(<= (+ "+pos+" "+nI+") (rd.size "+ca.recv.S+"))"))
+			u.c.n++
+			k := fmt.Sprintf("k_q%d", u.c.n)
+			st.assume(fmt.Sprintf("(forall ((%s Int)) %s)", k, implies(and("(<= 0 "+k+")", "(< "+k+" "+sLen(buf.S)+")"),
+				eq(fmt.Sprintf("(select %s (+ %s %s))", u.sliceBlock(st, buf), sOff(buf.S), k), fmt.Sprintf("(select (rd.content %s) (+ %s %s))", ca.recv.S, pos, k)))))
+		}
+		return Term{Tuple: []Term{buf, err}}, true
+	case "github.com/ipfs/go-cid.CidFromReader":
+		// (n, c, err): exactly n bytes are taken from r on every path (byte-wise reads, no read-ahead); success needs n >= 1
+		rd := ca.args[0]
+		u.declareReaderGhost()
+		pos := u.ghostCount(st, "consumed", rd.S)
+		n := u.freshOf(st, types.Typ[types.Int], "cidn")
+		cv := u.freshOf(st, sig.Results().At(1).Type(), "cid")
+		err := Term{S: c.fresh("err", "Int"), T: sig.Results().At(2).Type()}
+		st.assume(u.externalErr(err.S))
+		st.assume(c.idxLe(c.idxConst(0), n.S))
+		st.assume(implies(eq(err.S, "0"), c.idxLe(c.idxConst(1), n.S)))
+		u.bumpCount(st, "consumed", rd.S, n.S, "true")
+		if !c.bv {
+			st.assume("(<= (+ " + pos + " " + n.S + ") (rd.size " + rd.S + "))")
+		}
+		return Term{Tuple: []Term{n, cv, err}}, true
+	case "io.CopyN":
+		// (written, err): n >= 0: 0 <= written <= n, err == nil <==> written == n; n < 0: (0, nil)
+		dst, src, n := ca.args[0], ca.args[1], ca.args[2]
+		u.declareReaderGhost()
+		pos := u.ghostCount(st, "consumed", src.S)
+		w := u.freshOf(st, types.Typ[types.Int64], "copied")
+		err := Term{S: c.fresh("err", "Int"), T: sig.Results().At(1).Type()}
+		st.assume(u.externalErr(err.S))
+		zero64 := c.constInt(big.NewInt(0), 64, true)
+		neg := u.binop(nil, token.LSS, n, Term{S: zero64, T: n.T, K: big.NewInt(0)}, nil, e, true).S
+		st.assume(implies(neg, and(eq(w.S, zero64), eq(err.S, "0"))))
+		le := u.binop(nil, token.LEQ, w, n, nil, e, true).S
+		ge0 := u.binop(nil, token.GEQ, w, Term{S: zero64, T: w.T, K: big.NewInt(0)}, nil, e, true).S
+		st.assume(implies(not(neg), and(ge0, le, eq(eq(err.S, "0"), eq(w.S, n.S)))))
+		wi := u.toIdx(w)
+		u.bumpCount(st, "consumed", src.S, wi, "true")
+		u.bumpCount(st, "written", dst.S, wi, "true")
+		if !c.bv {
+			st.assume("(<= (+ " + pos + " " + wi + ") (rd.size " + src.S + "))")
+		}
+		return Term{Tuple: []Term{w, err}}, true
+	case "encoding/binary.ReadUvarint":
+		if r, ok := u.readUvarintModel(st, e, ca, sig); ok {
+			return r, true
+		}
+	case "(*bytes.Reader).Len":
+		u.declareReaderGhost()
+		r := u.freshOf(st, types.Typ[types.Int], "rlen")
+		pos := u.ghostCount(st, "consumed", ca.recv.S)
+		if !c.bv {
+			st.assume(eq(r.S, "(- (rd.size "+ca.recv.S+") "+pos+")"))
+		}
+		st.assume(c.idxLe(c.idxConst(0), r.S))
+		return r, true
+	case "bytes.NewReader":
+		b := ca.args[0]
+		u.declareReaderGhost()
+		nr := u.newRef(st)
+		c.declareFun("rd.faithful", "(Int) Bool")
+		st.assume("(rd.faithful " + nr + ")")
+		st.assume(eq("(rd.size "+nr+")", sLen(b.S)))
+		h := u.ghostHeap("consumed")
+		u.heapWrite(st, h, fmt.Sprintf("(store %s %s 0)", u.heapRead(st, h), nr))
+		u.c.n++
+		k := fmt.Sprintf("k_q%d", u.c.n)
+		st.assume(fmt.Sprintf("(forall ((%s %s)) %s)", k, c.idxSort(), implies(and(c.idxLe(c.idxConst(0), k), c.idxLt(k, sLen(b.S))),
+			eq(fmt.Sprintf("(select (rd.content %s) %s)", nr, k), fmt.Sprintf("(select %s %s)", u.sliceBlock(st, b), c.idxAdd(sOff(b.S), k))))))
+		return Term{S: nr, T: sig.Results().At(0).Type()}, true
 	case "io.NewSectionReader":
 		r, off, n := ca.args[0], ca.args[1], ca.args[2]
 		nr := u.newRef(st)
@@ -334,6 +504,8 @@ func (u *Unit) libModel(st *State, e *ast.CallExpr, callee *types.Func, ca callA
 		zero := c.idxConst(0)
 		clip := ite(c.idxLt(avail, zero), zero, ite(c.idxLt(avail, u.toIdx(n)), avail, u.toIdx(n)))
 		st.assume(implies(and(c.idxLe(zero, u.toIdx(off)), c.idxLe(zero, u.toIdx(n))), eq("(rd.size "+nr+")", clip)))
+		c.declareFun("rd.faithful", "(Int) Bool")
+		st.assume(implies("(rd.faithful "+r.S+")", "(rd.faithful "+nr+")"))
 		return Term{S: nr, T: sig.Results().At(0).Type()}, true
 	case "(*sync.RWMutex).RLock", "(*sync.RWMutex).Lock", "(*sync.RWMutex).RUnlock", "(*sync.RWMutex).Unlock",
 		"(*sync.Mutex).Lock", "(*sync.Mutex).Unlock":
@@ -417,6 +589,115 @@ func (u *Unit) declareReaderGhost() {
 	c := u.c
 	c.declareFun("rd.size", "(Int) "+c.idxSort())
 	c.declareFun("rd.content", fmt.Sprintf("(Int) (Array %s %s)", c.idxSort(), c.sortOf(u.byteT())))
+}
+
+// readUvarintModel executes the algorithm of encoding/binary.ReadUvarint (Go 1.21+) with up to ten calls of the reader's
+// ReadByte: the contract of the repository's ReadByte if the argument is a pointer to a repository type, the
+// io.ByteReader model otherwise.
+func (u *Unit) readUvarintModel(st *State, e *ast.CallExpr, ca callArgs, sig *types.Signature) (Term, bool) {
+	c := u.c
+	if len(ca.raw) != 1 || c.bv {
+		return Term{}, false
+	}
+	x := ca.raw[0]
+	var readByte func(st *State) (Term, Term, bool)
+	if pt, ok := x.T.Underlying().(*types.Pointer); ok {
+		obj, _, _ := types.LookupFieldOrMethod(x.T, true, u.pkg.Types, "ReadByte")
+		f, isF := obj.(*types.Func)
+		if !isF {
+			return Term{}, false
+		}
+		ct, cset := u.eng.contractFor(f)
+		if ct == nil {
+			return Term{}, false
+		}
+		_ = pt
+		readByte = func(st *State) (Term, Term, bool) {
+			recv := x
+			r := u.applyContract(st, e, f, ct, cset, callArgs{recv: &recv})
+			if len(r.Tuple) != 2 {
+				return Term{}, Term{}, false
+			}
+			return r.Tuple[0], r.Tuple[1], true
+		}
+	} else {
+		readByte = func(st *State) (Term, Term, bool) {
+			u.declareReaderGhost()
+			bt := u.freshOf(st, types.Typ[types.Uint8], "b")
+			err := Term{S: c.fresh("err", "Int"), T: sig.Results().At(1).Type()}
+			oldPos := u.ghostCount(st, "consumed", x.S)
+			st.assume(u.externalErr(err.S))
+			u.bumpCount(st, "consumed", x.S, c.idxConst(1), eq(err.S, "0"))
+			st.assume(implies(eq(err.S, "0"), and(eq(bt.S, fmt.Sprintf("(select (rd.content %s) %s)", x.S, oldPos)), "(< "+oldPos+" (rd.size "+x.S+"))")))
+			return bt, err, true
+		}
+	}
+	vVar := types.NewVar(e.Pos(), u.pkg.Types, "uvarint_v", types.Typ[types.Uint64])
+	eVar := types.NewVar(e.Pos(), u.pkg.Types, "uvarint_err", sig.Results().At(1).Type())
+	base := st.clone()
+	cur := st.clone()
+	var exits []*State
+	acc := "0"
+	eof := u.sentinel("gv_io_EOF")
+	ueof := u.sentinel("gv_io_ErrUnexpectedEOF")
+	exit := func(s *State, v, err string) {
+		s.vars[vVar] = Term{S: v, T: vVar.Type()}
+		s.vars[eVar] = Term{S: err, T: eVar.Type()}
+		exits = append(exits, s)
+	}
+	for k := 0; k < 10; k++ {
+		b, err, ok := readByte(cur)
+		if !ok {
+			return Term{}, false
+		}
+		// read error
+		se := cur.clone()
+		se.assume(not(eq(err.S, "0")))
+		ev := err.S
+		if k > 0 {
+			ev = ite(eq(err.S, eof), ueof, err.S)
+		}
+		exit(se, acc, ev)
+		cur.assume(eq(err.S, "0"))
+		st.assume("true")
+		u.assumeRange(cur, b)
+		// final byte
+		sf := cur.clone()
+		sf.assume("(< " + b.S + " 128)")
+		val := fmt.Sprintf("(+ %s (* %s %s))", acc, b.S, pow2(7*k).String())
+		if k == 9 {
+			ovf := sf.clone()
+			ovf.assume("(> " + b.S + " 1)")
+			oe := c.fresh("err", "Int")
+			ovf.assume("(> " + oe + " 1000)")
+			exit(ovf, acc, oe)
+			sf.assume("(<= " + b.S + " 1)")
+		}
+		nv := c.fresh("uv", "Int")
+		sf.assume(eq(nv, val))
+		exit(sf, nv, "0")
+		// continuation byte
+		cur.assume("(>= " + b.S + " 128)")
+		na := c.fresh("uvacc", "Int")
+		cur.assume(eq(na, fmt.Sprintf("(+ %s (* (mod %s 128) %s))", acc, b.S, pow2(7*k).String())))
+		acc = na
+	}
+	oe := c.fresh("err", "Int")
+	cur.assume("(> " + oe + " 1000)")
+	exit(cur, acc, oe)
+	merged := u.merge(base, exits)
+	if merged == nil {
+		return Term{}, false
+	}
+	v := merged.vars[vVar]
+	er := merged.vars[eVar]
+	delete(merged.vars, vVar)
+	delete(merged.vars, eVar)
+	*st = *merged
+	v.T = types.Typ[types.Uint64]
+	// the accumulated value fits 64 bits (at most 9*7+1 bits are taken)
+	st.assume(u.rangeFacts(st, v.S, v.T, 0))
+	return Term{Tuple: []Term{v, er}}, true
 }
 
 // sortSliceModel: sort.Slice(s, func(i, j int) bool { return s[i] OP s[j] }) (or s[i].F OP s[j].F) with OP in {<, >} on integers.
@@ -530,9 +811,11 @@ func (u *Unit) sortSliceModel(st *State, e *ast.CallExpr, ca callArgs) (Term, bo
 		implies(and(c.idxLe(zero, a), c.idxLt(a, b), c.idxLt(b, sLen(s.S))), le)))
 	// same elements, both directions (triggered only by reads of the respective array); opt-in (`option sort-members`)
 	// because the extra instances slow down proofs that only need the order
-	if u.ct != nil && u.ct.Options["sort-members"] {
+	if u.ct != nil && (u.ct.Options["sort-members"] || u.ct.Options["sort-members-fwd"]) {
 		st.assume(fmt.Sprintf("(forall ((%s %s)) (! %s :pattern (%s)))", a, c.idxSort(), implies(and(c.idxLe(zero, a), c.idxLt(a, sLen(s.S))),
 			fmt.Sprintf("(exists ((%s %s)) %s)", b, c.idxSort(), and(c.idxLe(zero, b), c.idxLt(b, sLen(s.S)), eq(at(newBlk, a), at(oldBlk, b))))), at(newBlk, a)))
+	}
+	if u.ct != nil && (u.ct.Options["sort-members"] || u.ct.Options["sort-members-bwd"]) {
 		st.assume(fmt.Sprintf("(forall ((%s %s)) (! %s :pattern (%s)))", a, c.idxSort(), implies(and(c.idxLe(zero, a), c.idxLt(a, sLen(s.S))),
 			fmt.Sprintf("(exists ((%s %s)) %s)", b, c.idxSort(), and(c.idxLe(zero, b), c.idxLt(b, sLen(s.S)), eq(at(oldBlk, a), at(newBlk, b))))), at(oldBlk, a)))
 	}
@@ -557,6 +840,35 @@ func fixedSize(t types.Type) (int64, bool) {
 		return int64(bits / 8), true
 	}
 	return 0, false
+}
+
+func (u *Unit) sizeAsInt(sz string) string {
+	if u.c.bv {
+		return "(bv2nat " + sz + ")"
+	}
+	return sz
+}
+
+// readerFacts: after reading n bytes at ghost position oldPos into buf: the bytes are the reader's content and the
+// new position does not pass the ghost size.
+func (u *Unit) readerFacts(st *State, rd, oldPos string, buf Term, n string) {
+	c := u.c
+	nI := n
+	if c.bv {
+		nI = "(bv2nat " + n + ")"
+	}
+	st.assume(implies(c.idxLt(c.idxConst(0), n), "(<= (+ "+oldPos+" "+nI+") "+u.sizeAsInt("(rd.size "+rd+")")+")"))
+	if c.bv {
+		return // content facts need an Int index: int mode only
+	}
+	blk := u.sliceBlock(st, buf)
+	u.c.n++
+	k := fmt.Sprintf("k_q%d", u.c.n)
+	st.assume(fmt.Sprintf("(forall ((%s Int)) %s)", k, implies(and("(<= 0 "+k+")", "(< "+k+" "+n+")"),
+		eq(fmt.Sprintf("(select %s (+ %s %s))", blk, sOff(buf.S), k), fmt.Sprintf("(select (rd.content %s) (+ %s %s))", rd, oldPos, k)))))
+	u.c.n++
+	k2 := fmt.Sprintf("k_q%d", u.c.n)
+	st.assume(fmt.Sprintf("(forall ((%s Int)) (and (<= 0 (select (rd.content %s) %s)) (<= (select (rd.content %s) %s) 255)))", k2, rd, k2, rd, k2))
 }
 
 // externalErr: an error produced outside the repository is nil, io.EOF, io.ErrUnexpectedEOF or a non-sentinel value.
@@ -608,6 +920,13 @@ func (u *Unit) readAtModel(st *State, e *ast.CallExpr, r, p, off Term, sig *type
 	st.assume(implies(eq(err.S, "0"), eq(n.S, sLen(p.S))))
 	st.assume(implies(c.idxLt(zero, n.S), and(c.idxLe(zero, offI), c.idxLe(c.idxAdd(offI, n.S), "(rd.size "+r.S+")"))))
 	st.assume(u.externalErr(err.S))
+	// faithful files (os.File, bytes.Reader, mmap, section readers over them): exactly min(len(p), size-off) bytes, EOF only when short
+	c.declareFun("rd.faithful", "(Int) Bool")
+	avail := c.idxSub("(rd.size "+r.S+")", offI)
+	exact := ite(c.idxLt(avail, zero), zero, ite(c.idxLt(avail, sLen(p.S)), avail, sLen(p.S)))
+	eof := u.sentinel("gv_io_EOF")
+	st.assume(implies(and("(rd.faithful "+r.S+")", c.idxLe(zero, offI), c.idxLe(zero, "(rd.size "+r.S+")")),
+		and(eq(n.S, exact), eq(eq(err.S, "0"), eq(n.S, sLen(p.S))), implies(not(eq(err.S, "0")), eq(err.S, eof)))))
 	blk := u.sliceBlock(st, p)
 	u.c.n++
 	k := fmt.Sprintf("k_q%d", u.c.n)
@@ -625,6 +944,7 @@ func (u *Unit) readAtModel(st *State, e *ast.CallExpr, r, p, off Term, sig *type
 // cells of pointers passed to it; everything else is untouched. Function-typed or repo-interface arguments
 // make it a full havoc.
 func (u *Unit) externalCall(st *State, e *ast.CallExpr, callee *types.Func, ca callArgs) Term {
+	c := u.c
 	sig := callee.Type().(*types.Signature)
 	if ca.isig != nil {
 		sig = ca.isig
@@ -634,7 +954,12 @@ func (u *Unit) externalCall(st *State, e *ast.CallExpr, callee *types.Func, ca c
 	if ca.recv != nil {
 		args = append(args, *ca.recv)
 	}
-	args = append(args, ca.args...)
+	if len(ca.raw) == len(ca.argExps) && len(ca.raw) > 0 {
+		// use the values before conversion to the parameter types: a pointer or slice passed as `any` is still written through
+		args = append(args, ca.raw...)
+	} else {
+		args = append(args, ca.args...)
+	}
 	pure := u.eng.isPureExternal(callee) || readOnlyExternal[callee.Name()] || readOnlyExternalFull[callee.FullName()]
 	for _, a := range args {
 		if a.T == nil {
@@ -685,9 +1010,42 @@ func (u *Unit) externalCall(st *State, e *ast.CallExpr, callee *types.Func, ca c
 		u.unsupportedf(e.Pos(), "external call %s receives repository code (callback/interface): heaps havoced", callee.FullName())
 		u.havocAllHeaps(st)
 	}
+	if !pure {
+		// an unmodelled external function may read from / write to any reader or writer it can reach: the ghost byte
+		// counters of reference-typed arguments move forward arbitrarily; a pointer to a repository struct may reach others
+		reach := false
+		for _, a := range args {
+			if a.T == nil || u.c.sortOf(a.T) != "Int" {
+				continue
+			}
+			if pt, ok := a.T.Underlying().(*types.Pointer); ok {
+				if nm, ok := pt.Elem().(*types.Named); ok && nm.Obj().Pkg() != nil && u.eng.isRepoPkg(nm.Obj().Pkg().Path()) {
+					reach = true
+				}
+			}
+			for _, g := range []string{"consumed", "written"} {
+				h := u.ghostHeap(g)
+				cur := u.heapRead(st, h)
+				nv := c.fresh("cnt", "Int")
+				st.assume("(>= " + nv + " (select " + cur + " " + a.S + "))")
+				u.heapWrite(st, h, fmt.Sprintf("(store %s %s %s)", cur, a.S, nv))
+			}
+		}
+		if reach {
+			u.havocHeap(st, u.ghostHeap("consumed"))
+			u.havocHeap(st, u.ghostHeap("written"))
+		}
+	}
 	u.externalCalls[callee.FullName()] = true
+	allocBefore := st.alloc
 	u.bumpAlloc(st)
 	rs := u.freshResults(st, sig, "x_"+callee.Name())
+	if strings.HasPrefix(callee.Name(), "New") && len(rs) >= 1 {
+		// library convention (trusted): constructors return freshly allocated objects
+		if _, isPtr := sig.Results().At(0).Type().Underlying().(*types.Pointer); isPtr {
+			st.assume(or(eq(rs[0].S, "0"), "(>= "+rs[0].S+" "+allocBefore+")"))
+		}
+	}
 	if strings.HasPrefix(callee.Name(), "New") && len(rs) == 1 {
 		switch sig.Results().At(0).Type().Underlying().(type) {
 		case *types.Pointer, *types.Interface:
